@@ -28,7 +28,7 @@ TRUSTED_EXTRA = ["pickle / gzip / tar", "pysam, the read simulator", "argparse /
 ASSUMPTIONS = []
 
 
-def make_sample(r, d, k, two_genes, sparse_second=False):
+def make_sample(r, d, k, two_genes, sparse_second=False, borderline=False):
     from aldy.common import GRange
     genes = []
     offs = [(10000, 20000), (30000, 40000)]
@@ -75,8 +75,17 @@ def make_sample(r, d, k, two_genes, sparse_second=False):
         elif x < 0.3:
             rd["qual"] = [r.choice([2, 5, 8]) if r.random() < 0.3 else 40 for _ in rd["seq"]]
     # pairs sharing a fragment name make multi-site phase records
-    ref += sim.neutral_reads(cnr, 24)
-    smp += sim.neutral_reads(cnr, 24)
+    # whole reads hanging over both ends of the neutral region (their flank depth is part of what the sample reader keeps)
+    ref += sim.neutral_reads(cnr, 24, overhang=True)
+    if borderline:
+        # a sample just deep enough: one layer of 100-base reads from 50 bases before the neutral region to 50 bases past it
+        # and a second layer over the first 80 % of the region - 1.8x inside the region, 2.05x counting the whole reads, which
+        # is what the "sample too shallow" test of the reader counts
+        a_, b_ = cnr.start, cnr.end
+        smp += [{"name": f"nb{i}", "pos": a_ - 50 + 100 * i, "seq": "A" * 100, "cigar": [(0, 100)], "mapq": 60} for i in range((b_ - a_ + 100) // 100)]
+        smp += [{"name": f"nc{i}", "pos": a_ + 80 * i, "seq": "A" * 80, "cigar": [(0, 80)], "mapq": 60} for i in range(int(0.8 * (b_ - a_)) // 80)]
+    else:
+        smp += sim.neutral_reads(cnr, 24, overhang=True)
     length = max(sim.chrom_length_for(g) for _, g, _ in genes)
     pbam = os.path.join(d, f"prof{k}.bam")
     sbam = os.path.join(d, f"sample{k}.bam")
@@ -124,6 +133,12 @@ def evidence_equiv(s1, s3):
         return "indel support differs"
     if s1.coverage._region_coverage != s3.coverage._region_coverage:
         return "region depths differ"
+    # the depth table of the copy-number neutral region (overhanging bases of its reads included: the "sample too shallow"
+    # test sums all of it)
+    d1 = {p: v for p, v in (getattr(s1, "_dump_cn", None) or {}).items() if v}
+    d3 = {p: v for p, v in (getattr(s3, "_dump_cn", None) or {}).items() if v}
+    if d1 != d3:
+        return f"depth table of the neutral region differs ({len(d1)} vs {len(d3)} covered positions, sums {sum(d1.values())} vs {sum(d3.values())})"
     f1 = sorted(sorted(v.items()) for v in s1.phases.values() if len(v) > 1)
     f3 = sorted(sorted(v.items()) for v in s3.phases.values() if len(v) > 1)
     if f1 != f3:
@@ -148,7 +163,7 @@ def tie(ctx):
     try:
         for k in range(10 if quick else 80):
             two = k % 3 == 2
-            genes, cnr, pbam, sbam = make_sample(r, d, k, two, sparse_second=(k % 6 == 2))
+            genes, cnr, pbam, sbam = make_sample(r, d, k, two, sparse_second=(k % 6 == 2), borderline=(k % 10 == 4))
             gap = r.choice(["0", "0", "0.1", "0.3"])
             # some runs without indel realignment: `_parse_read` then keeps the indel support table itself
             extra = {"indelpost": "false"} if k % 4 == 1 else {}
